@@ -12,7 +12,8 @@ from ..core import HELD, INCONCLUSIVE, VIOLATED, Q, result
 PROP = "C01"
 META = {
     "bounds": "every class below Cached with a fixture; per cached method and argument pattern {defaults, key=<link attribute>, "
-              "typical_weight}: all mutator sequences of length <=1 (quick) / <=2 (thorough) between two queries",
+              "typical_weight}: all mutator sequences of length <=1 (quick) / <=2 (thorough) between two queries, replayed with "
+              "every single mutator (or none) applied before the first query",
     "assumptions": [
         "effect summaries are extracted from the current sources by abstract interpretation of the AST with the real MRO "
         "(reads/writes of self attributes, counter updates, inlined self./Class. calls and property setters); read sets are "
@@ -234,14 +235,16 @@ def brief(x):
     return s[:160]
 
 
-def run_history(fixture, qname, qargs, qkw, history, picks):
-    """returns (first, second, twin) query results on real objects"""
+def run_history(fixture, qname, qargs, qkw, history, picks, prefix=()):
+    """returns (first, second, twin) query results on real objects; `prefix` = mutators applied before the first query"""
     def apply(o, name, k):
         alts = fixture["mutators"][name]
         random.seed(1234)
         np.random.seed(1234)
         alts[k % len(alts)](o)
     obj = fixture["make"]()
+    for name, k in prefix:
+        apply(obj, name, k)
     q = getattr(obj, qname)
     first = q(*qargs, **qkw)
     first = first.copy() if hasattr(first, "copy") else first
@@ -250,7 +253,7 @@ def run_history(fixture, qname, qargs, qkw, history, picks):
     second = getattr(obj, qname)(*qargs, **qkw)
     second = second.copy() if hasattr(second, "copy") else second
     twin = fixture["make"]()
-    for name, k in zip(history, picks):
+    for name, k in list(prefix) + list(zip(history, picks)):
         apply(twin, name, k)
     twin.cache_clear()
     third = getattr(twin, qname)(*qargs, **qkw)
@@ -309,16 +312,21 @@ def ob_class(name, cname, k, chunk=None, nchunks=1):
         errors = []
         for cand in cands:
             for (qa, qkw) in query_variants(qname, func, fixture):
-                for pick in ([0] * len(cand["history"]), [1] * len(cand["history"])):
-                    tried += 1
-                    try:
-                        first, second, twin = run_history(fixture, qname, qa, qkw, cand["history"], pick)
-                    except Exception as e:  # noqa
-                        errors.append(f"{cand['history']}: {type(e).__name__}: {str(e)[:80]}")
-                        continue
-                    if not same(second, twin):
-                        reproduced = dict(cls=cname, query=qname, args=list(qa), kwargs=qkw, history=cand["history"], picks=pick,
-                                          first=brief(first), second=brief(second), twin=brief(twin), changed=cand["changed"])
+                prefixes = [()] + [((mn, 0),) for mn in list(fixture["mutators"])[:6] if mn != cand["history"][0]]
+                for prefix in prefixes:
+                    for pick in ([0] * len(cand["history"]), [1] * len(cand["history"])):
+                        tried += 1
+                        try:
+                            first, second, twin = run_history(fixture, qname, qa, qkw, cand["history"], pick, prefix)
+                        except Exception as e:  # noqa
+                            errors.append(f"{cand['history']}: {type(e).__name__}: {str(e)[:80]}")
+                            continue
+                        if not same(second, twin):
+                            reproduced = dict(cls=cname, query=qname, args=list(qa), kwargs=qkw, history=cand["history"], picks=pick,
+                                              prefix=[list(x) for x in prefix],
+                                              first=brief(first), second=brief(second), twin=brief(twin), changed=cand["changed"])
+                            break
+                    if reproduced:
                         break
                 if reproduced:
                     break
@@ -372,7 +380,8 @@ def obligations(tier):
 def replay(w):
     F = fixtures()
     fx = F[w["cls"]]
-    first, second, twin = run_history(fx, w["query"], tuple(w.get("args", ())), w.get("kwargs", {}), w["history"], w["picks"])
+    first, second, twin = run_history(fx, w["query"], tuple(w.get("args", ())), w.get("kwargs", {}), w["history"], w["picks"],
+                                      [tuple(x) for x in w.get("prefix", [])])
     bad = not same(second, twin)
-    return bad, (f"{w['cls']}: {w['query']}({w.get('kwargs', {})}) = {brief(first)}; after {w['history']} the object reports {brief(second)}, "
+    return bad, (f"{w['cls']}: after {w.get('prefix', [])} {w['query']}({w.get('kwargs', {})}) = {brief(first)}; after {w['history']} the object reports {brief(second)}, "
                  f"a twin with cleared caches reports {brief(twin)}")
